@@ -122,7 +122,7 @@ func main() {
 	var sb strings.Builder
 	w := func(format string, a ...interface{}) { fmt.Fprintf(&sb, format, a...) }
 	w("(* Generated.v — written by tools/gen from the Go source in %s on every run. Do not edit. *)\n", repo)
-	w("From Coq Require Import ZArith NArith List String.\nImport ListNotations.\nOpen Scope Z_scope.\nOpen Scope string_scope.\n\n")
+	w("From Coq Require Import ZArith NArith List String.\nFrom GK Require Import GExpr.\nImport ListNotations.\nOpen Scope Z_scope.\nOpen Scope string_scope.\n\n")
 
 	// ---- constants
 	constZ := func(name string) string {
@@ -717,6 +717,7 @@ func main() {
 	}
 	sort.Strings(oe)
 	fmt.Fprintf(&sb, "\n(* lock order: (A, B) = lock B is acquired, directly or below a callee, while lock A is held *)\nDefinition g_lock_order : list (string * string) := [%s].\n", strings.Join(oe, "; "))
+	emitCode(w, info, files)
 	fmt.Print(sb.String())
 }
 
